@@ -425,9 +425,15 @@ pub fn gen_elem(src: &mut Src, o: &GdsGenOpts, big: &mut bool) -> MElem {
         },
         3 => MElem::Sref { name: gen_string(src, o), xy: gen_pt(src), strans: opt(src, gen_strans), c: gen_common(src, o) },
         4 => {
-            let cols = gen_i16(src);
+            let mut cols = gen_i16(src);
             let mut rows = gen_i16(src);
-            if o.distinct_fields && rows == cols {
+            // degenerate arrays are arrays all the same: 1 x 1, one row, one column
+            if src.prob(1, 6) {
+                cols = *src.pick(&[1i16, 1, 2, 3]);
+                rows = *src.pick(&[1i16, 1, 2, 3]);
+            }
+            // (distinct counts make a swap visible; one time in three equal counts are left as they are)
+            if o.distinct_fields && rows == cols && !src.prob(1, 3) {
                 rows = cols.wrapping_add(1);
             }
             MElem::Aref { name: gen_string(src, o), xy: [gen_pt(src), gen_pt(src), gen_pt(src)], cols, rows, strans: opt(src, gen_strans), c: gen_common(src, o) }
